@@ -116,4 +116,80 @@ PROPS = {
              "random n to 1e6; distinct by sha1 of the input",
         assumptions=["statrs Normal::inverse_cdf is increasing in p (validated numerically by the 'wider' relation itself)"],
     ),
+    "C13": dict(
+        modules=["StatsCI.Properties.C13"],
+        anchors=["src/interval.rs"], exhaustive=True, exact_ops="all",
+        technique="Lean 4 theorems (exact image of the denoted set under each operation, over ordered rings/fields) + exhaustive differential correspondence",
+        level_text="Kernel-checked theorems over the model with the operations of any ordered field (ring where no division occurs): for every well-formed "
+                   "interval and scalar, x in A implies x op k in A op k; the denoted set of the result IS the image (so every finite bound is attained and the "
+                   "result is unbounded on exactly the side the image is); results are well-formed; A+B / A-B denote image2; the documented panics are exactly "
+                   "the cases whose image is the whole line; relative_to encloses (x-r)/r and attains its bounds. Tied to the code exhaustively over an integer "
+                   "box and exactly representable floats, all kinds, all scalars of both signs and zero.",
+        level_note="Trusted: Lean kernel + 3 standard axioms. Integer division (truncating) and machine-integer overflow are outside the theorems (fields / "
+                   "unbounded Int); they are covered by execution only. relative_to against an upward-unbounded reference is sound and attains its finite "
+                   "bound but is not tight on the unbounded side (stated as a theorem).",
+        rule="exhaustive: all intervals over i64 box [-4,4] (quick) / [-6,6] (thorough) and 7 dyadic f64 values x all scalars in [-4,4] resp. 7 floats "
+             "(mul, div (k != 0), add, sub, neg) x all ordered pairs (A+B, A-B, relative_to); distinct by sha1 of the input",
+        trusted_base=INTERVAL_TB,
+        assumptions=["element arithmetic is exact on the generated values (small integers, dyadic floats)"],
+    ),
+    "C14": dict(
+        modules=["StatsCI.Properties.C14"],
+        anchors=["src/interval.rs", "src/error.rs"], exhaustive=True, exact_ops="all",
+        technique="Lean 4 theorems (constructors, round trips, accessor table, predicates, hashing) + exhaustive differential correspondence",
+        level_text="Kernel-checked theorems over the model for any linear order: fallible constructors/conversions return Ok exactly for low <= high (and the "
+                   "stored bounds), InvalidBounds for inverted bounds, EmptyInterval for (None, None); accessors return exactly the stored bounds with MIN/MAX or "
+                   "+-inf for the missing side; conversions round-trip; kind predicates are mutually exclusive, is_degenerate iff two-sided with width 0; equality "
+                   "is structural, equal intervals feed the hasher identical sequences, different kinds are never equal. Tied to the code over all pairs of a chain "
+                   "for i64, u8 (0/MAX), f64 (+-0, +-inf) and &str through every constructor and conversion, with a recording Hasher.",
+        level_note="Trusted: Lean kernel + 3 standard axioms; NaN bounds are outside the property's quantifier; width overflow of machine integers is outside the model.",
+        rule="exhaustive over all ordered pairs of a 6-9 element chain per element type: new, try_from((T,T)), try_from((Option,Option)), try_from(a..=b), from(a..), "
+             "from(..=a), accessor table, option-pair round trip, clone, ==, tuple/extreme projections, width, recorded hash input; distinct by sha1 of the input",
+        trusted_base=INTERVAL_TB,
+    ),
+    "C15": dict(
+        modules=["StatsCI.Properties.C15"],
+        anchors=["src/interval.rs"], exhaustive=True, exact_ops="all",
+        technique="Lean 4 theorems (strict partial order characterised on the denoted sets) + exhaustive differential correspondence",
+        level_text="Kernel-checked theorems over the model for any linear order and well-formed intervals: partial_cmp is Equal iff a == b; Less iff a != b and "
+                   "every member of a is <= every member of b; a < b iff b > a; <,<=,>,>= are consistent with partial_cmp; the order is irreflexive, asymmetric "
+                   "and transitive; intervals unbounded on the same side or overlapping in more than a point are incomparable. Tied to the code over all ordered "
+                   "pairs of intervals of all kinds over a chain (i64, f64, &str) including the five comparison operators.",
+        level_note="Trusted: Lean kernel + 3 standard axioms. Transitivity needs no triple enumeration on the implementation: it is a theorem about the model, "
+                   "and the model is tied to the code pairwise. For ill-formed two-sided literals (low > high) duality fails (theorem not_dual_without_WF).",
+        rule="exhaustive: all ordered pairs of intervals over a 7-9 element chain, three element types: partial_cmp, <, <=, >, >=, ==; distinct by sha1 of the input",
+        trusted_base=INTERVAL_TB,
+    ),
+    "C19": dict(
+        modules=["StatsCI.Properties.C19"],
+        anchors=["src/interval.rs"], exhaustive=True, exact_ops="all",
+        technique="Lean 4 theorems (approximate equality for an arbitrary element predicate; Display shapes) + differential correspondence with a transcription of approx's f64 algorithms",
+        level_text="Kernel-checked theorems for an arbitrary element predicate e: approx_eq(a,b) iff same kind and e on every corresponding bound; reflexive / "
+                   "symmetric when e is; implied by equality; never relates different kinds; Display has exactly the three documented shapes. Tied to the code on "
+                   "all 3x3 kind pairs over a chain of floats with tolerances straddling the actual bound differences (abs_diff_eq, relative_eq, ulps_eq) and on "
+                   "format!() of i64 / &str / f64 intervals.",
+        level_note="Trusted: Lean kernel + 3 standard axioms; the element-level algorithms of the approx crate are transcribed (not proved) in the driver and "
+                   "compared bit-for-bit through the interval-level results.",
+        rule="all ordered pairs of float intervals over an 8-element chain x 3 (quick) / 12 (thorough) tolerance triples drawn from the actual differences; "
+             "display of every interval over three element types; distinct by sha1 of the input",
+    ),
+    "C08": dict(
+        modules=["StatsCI.Properties.C08"],
+        anchors=["src/utils.rs", "src/mean.rs"], exact_ops=set(),
+        technique="Lean 4 theorems (Kahan error bound for every rounding function and every accumulation history) + bit-exact differential correspondence with the theorem's bound as oracle",
+        level_text="Kernel-checked theorems over the model's kahan_add at reals with an arbitrary rounding function fl, |fl x - x| <= u|x|, u <= 1/64: the drift "
+                   "identity, the invariant step, the sequential bound |value - sum| <= (10u + 9(n+2)u^2) sum|x| for every list, and for every accumulation history "
+                   "(append / extend / merge tree) |value - sum| <= Eb + 8u Tb with recursively defined budgets and the closed form ((12 + 10 rdepth)u + "
+                   "12 steps u^2) sum|x|; exactness at fl = id; Arithmetic's two registers are such histories. The model is tied to the code bit-for-bit (register "
+                   "contents through the hook, value() publicly) on random and exhaustive merge trees and on streams of up to 10^6 (quick) / 10^7 (thorough) "
+                   "elements; the oracle evaluates the theorem's own budget for the history that was run and compares the implementation's error, measured "
+                   "exactly in dyadic arithmetic, against it.",
+        level_note="Trusted: Lean kernel + 3 standard axioms; IEEE round-to-nearest satisfies the hypothesis on fl only without overflow/underflow (generated "
+                   "magnitudes stay in range); 'independent of n' is proved in the honest form: the constant depends on the depth of right-operand merges, "
+                   "never on n beyond the n u^2 term.",
+        rule="random stack programs over 1-8 chunks (append / extend / += / + / clone / interleaved queries), every merge-tree shape over 2-5 (quick) / 6 chunks, "
+             "five generators (constant, same-sign, mixed magnitudes, cancelling, head+increments) for f32 and f64, streams of 5e4 and 1e6 (1e7 thorough) elements; "
+             "distinct by sha1 of the program",
+        assumptions=["no overflow/underflow in the generated streams"],
+    ),
 }
